@@ -3,6 +3,9 @@ package main
 import (
 	"fmt"
 	"strings"
+
+	"code.gopub.tech/tpl/html"
+	"code.gopub.tech/tpl/types"
 )
 
 func init() {
@@ -209,6 +212,111 @@ func propC16(c *ctx) error {
 				return err
 			}
 		}
+	}
+	return c16Twins(c, r)
+}
+
+// c16Twins: histories over data of DIFFERENT Go types that look alike — distinct struct types with the same printed
+// name (function-local types), the same field names in another order or with other kinds, a map with the same keys —
+// on one template object, on fresh objects and on fresh managers.  Nothing learnt from one value's type may be
+// applied to another's.  Native oracle.
+func c16Twins(c *ctx, r *rng) error {
+	res := c.res
+	mk := []func(t string, n int) any{
+		func(t string, n int) any {
+			type Page struct {
+				Title string
+				N     int
+			}
+			return Page{t, n}
+		},
+		func(t string, n int) any {
+			type Page struct {
+				N     int
+				Title string
+			}
+			return Page{n, t}
+		},
+		func(t string, n int) any {
+			type Page struct {
+				X     bool
+				N     int64
+				Y     []int
+				Title string
+			}
+			return &Page{N: int64(n), Title: t}
+		},
+		func(t string, n int) any { return map[string]any{"Title": t, "N": n} },
+		func(t string, n int) any {
+			type inner struct{ Title string }
+			type Page struct {
+				N int
+				inner
+			}
+			return Page{n, inner{t}}
+		},
+	}
+	tpls := []string{
+		`<h1 :text="${p.Title}">o</h1><p :text="${p.N}">o</p>`,
+		`<ul><li :range="_, q : ps" :title="${q.Title}" :text="${q.N + 1}">o</li></ul>`,
+		`<b :with="w := ${p}" :text="${w.Title}${w.N}">o</b>`,
+	}
+	n := c.n(40, 1500)
+	for i := 0; i < n; i++ {
+		ti := i % len(tpls)
+		fresh := func() (types.Template, error) {
+			m := html.NewTplManager()
+			if err := m.Add("t", strings.NewReader(tpls[ti])); err != nil {
+				return nil, err
+			}
+			return m.GetTemplate("t")
+		}
+		shared, err := fresh()
+		if err != nil {
+			res.SelfTest = append(res.SelfTest, "C16 twin template does not load: "+err.Error())
+			return nil
+		}
+		var hist []any
+		for s, steps := 0, 3+r.n(5); s < steps; s++ {
+			k := r.n(len(mk))
+			title, num := fmt.Sprintf("t%d", r.n(5)), r.n(90)
+			v := mk[k](title, num)
+			data := map[string]any{"p": v, "ps": []any{v, mk[r.n(len(mk))](title+"x", num+1)}}
+			want := ""
+			switch ti {
+			case 0:
+				want = fmt.Sprintf("<h1>%s</h1><p>%d</p>", title, num)
+			case 1:
+				want = fmt.Sprintf(`<ul><li title="%s">%d</li><li title="%sx">%d</li></ul>`, title, num+1, title, num+2)
+			case 2:
+				want = fmt.Sprintf("<b>%s%d</b>", title, num)
+			}
+			hist = append(hist, J{"type": k, "title": title, "n": num})
+			t := shared
+			where := "one template object"
+			switch r.n(3) {
+			case 1:
+				t, _ = fresh()
+				where = "a fresh manager"
+			}
+			var sb strings.Builder
+			err := func() (err error) {
+				defer func() {
+					if x := recover(); x != nil {
+						err = fmt.Errorf("panic: %v", x)
+					}
+				}()
+				return t.Execute(&sb, data)
+			}()
+			res.S3Checked++
+			res.count("twin_type_executions")
+			if err != nil || sb.String() != want {
+				res.violate(J{"tpl": tpls[ti], "history": hist, "executed_on": where}, want, J{"out": sb.String(), "err": fmt.Sprint(err)},
+					"the result depends on the TYPE of data rendered earlier (struct types that look alike)")
+				break
+			}
+		}
+		res.eval(fmt.Sprintf("twins|%d|%s", ti, jstr(hist)), true, J{"tpl": tpls[ti], "history": hist})
 	}
 	return nil
 }
